@@ -114,6 +114,19 @@ CHECKS['C16'] = dict(
     note='Trusted: clang-14 -O1 IR; irsym heap ledger; GSL allocations (malloc) never fail (the property speaks of std::bad_alloc); one '
          'failure per operation; dimensions (2,3) in the quick tier, four pairs in the thorough tier.',
     design='§3 C16', category='model_checking')
+CHECKS['C15'] = dict(
+    text='Histories of 1..3 public operations (a catalogue of ~190 operation instances: every constructor/factory with valid and invalid '
+         'arguments, all assignment forms, arithmetic with every value category, implicit conversions, comparison, scalar product, '
+         'rotations, views, conversions, printing, SetBackingStore, destruction, cache churn beyond its 32-entry capacity, including calls '
+         'that end in a library exception) are executed symbolically from 25 pre-states; every load/store/memcpy is checked against the '
+         'object table (bounds, lifetime, constness), every delete against the allocation ledger, nsw/nuw arithmetic, shifts, division, '
+         'unreachable and llvm.assume (asserted, i.e. alignment/size guarantees must hold) on the executed path; at the end everything is '
+         'destroyed, the cache drained and the ledger must be empty. SQuIDS objects: construct/ini/re-ini/move/destroy histories with a '
+         'full new/new[]/malloc ledger. Failing histories are replayed on an ASan/UBSan build with a counting allocator.',
+    note='Trusted: clang-14 -O1 IR; irsym object/heap model; bound: histories <=3 operations (multi-step ones sampled by VERIF_SEED in the '
+         'quick tier), dimensions (2,3) quick / three pairs thorough; arithmetic with empty-vector operands excluded (stated precondition '
+         'size>=1); SQuIDS::Evolve excluded (GSL ODE driver has no IR); one logical thread.',
+    design='§3 C15')
 NA_REASON = 'check not built yet (framework under construction; see DESIGN.md)'
 NA = {}
 
